@@ -3,7 +3,7 @@
    Print Assumptions.  Model: coq/C12/Reduce.v, coq/C12/Hash.v over coq/gen/ReduceParams.v. *)
 From Coq Require Import NArith List.
 From MirV Require Import gen.ReduceParams C12.Arr C12.Hash C12.Reduce C12.CodecProofs C12.DecodeProofs
-  C12.RoundTrip C12.EncodeTotal.
+  C12.RoundTrip C12.EncodeTotal C12.EncodeExact.
 Import ListNotations.
 Local Open Scope N_scope.
 
@@ -108,3 +108,39 @@ Theorem reduce_altered_same_data_example :
             /\ decode true (fun _ => 0) (fun _ => 0) ex_altered = Accept ex_data.
 Proof. exact altered_same_data. Qed.
 Print Assumptions reduce_altered_same_data_example.
+
+(* ---------------------------------------------------------------------------------------------
+   Round 2 (audit): what round 1 validated only by the correspondence run. *)
+
+(* The encoder's arithmetic is exact and its byte-compare fuel suffices.  [encode_x mf] is the encoder
+   with (a) every uint32_t subtraction of the C code (buf_bound - pos, pos - el->pos,
+   curr_num - el->num, len - (START_LEN - 1), base - dict_pos) CHECKED -- an underflow, where the
+   model's natural-number subtraction and the C wrap-around would differ, yields None -- and (b) the
+   fuel [mf] of the loop "for (; len < len_bound; len++) if (s1[len] != s2[len]) break;" as a
+   parameter.  For every input and every mf >= BUF_LEN it equals [encode]: no subtraction ever
+   underflows and no larger fuel changes a single output byte. *)
+Theorem reduce_encode_exact : forall mf data,
+  (buf_fuel <= mf)%nat -> encode_x mf data = encode data.
+Proof. exact encode_exact_lemma. Qed.
+Print Assumptions reduce_encode_exact.
+
+Theorem reduce_encode_no_underflow : forall mf data,
+  (buf_fuel <= mf)%nat -> exists s, encode_x mf data = Some s.
+Proof. exact encode_no_underflow_lemma. Qed.
+Print Assumptions reduce_encode_no_underflow.
+
+(* the checks of encode_x are real: an underflowing subtraction is reported *)
+Theorem reduce_checked_sub_detects : csub 3 4 = None /\ ref_size_x 2 1 = None.
+Proof. exact csub_detects. Qed.
+Print Assumptions reduce_checked_sub_detects.
+
+(* What the byte-compare loop computes when its fuel covers the distance to the bound (no fuel in
+   the conclusion): the length r of the longest common prefix of the two positions below the bound. *)
+Theorem reduce_match_len_maximal : forall buf p1 p2 bound fuel len,
+  (N.to_nat (bound - len) <= fuel)%nat -> len <= bound ->
+  let r := match_len fuel buf p1 p2 len bound in
+  len <= r <= bound
+  /\ (forall i, len <= i < r -> bget buf (p1 + i) = bget buf (p2 + i))
+  /\ (r = bound \/ bget buf (p1 + r) <> bget buf (p2 + r)).
+Proof. exact match_len_maximal. Qed.
+Print Assumptions reduce_match_len_maximal.
